@@ -35,7 +35,7 @@ def _parse_fn(src):
     """Excel.parse in reader normal form: helpers of the class inlined (the suspicious-content test stays a call), appended
     comprehensions / conditional expressions desugared into loops / if-else, guard clauses nested"""
     import copy as _copy
-    from ..inline import inline_methods, class_resolver, desugar, nest_guards
+    from ..inline import inline_methods, class_resolver, desugar, nest_guards, inline_class_constants
     if id(src) in _reader_cache:
         return _reader_cache[id(src)]
     ex = src.cls('Excel')
@@ -44,7 +44,7 @@ def _parse_fn(src):
         raise AnalysisError('C18', 'Excel.parse not found')
     f2 = _copy.copy(fi)
     node = inline_methods(fi.node, class_resolver(src, ex, fi), depth=2, exclude={'_get_suspicious_constructions', '__init__'})
-    f2.node = nest_guards(desugar(node))
+    f2.node = inline_class_constants(nest_guards(desugar(node)), ex.node, ex.name)
     _reader_cache[id(src)] = f2
     return f2
 
@@ -97,7 +97,12 @@ def r1(run: Run, src):
                   f'reset_dimensions() only runs when `{" and ".join(("" if pol else "not ") + ast.unparse(t)[:60] for t, pol in rc_)}`: '
                   f'a dimension record that is present but understates the used area is then trusted and the rows / columns beyond it '
                   f'are never streamed', fact='reset for every worksheet', loc=loc_of(fi.module.path, resets[0]))
-    run.check(len(resets) == 1 and resets[0].lineno < row_loop.lineno, 'C18.R1', 'Excel.parse/reset_dimensions', 'no-reset',
+    from ..paths import executed_before, enclosing_stmt
+    _pm = parent_map(fi.node)
+    before_rows = executed_before(fi.node, row_loop, _pm)
+    reset_first = len(resets) == 1 and any(enclosing_stmt(resets[0], _pm) is st_ or any(resets[0] is x for x in ast.walk(st_))
+                                           for st_ in before_rows)
+    run.check(reset_first, 'C18.R1', 'Excel.parse/reset_dimensions', 'no-reset',
               'reset_dimensions() is not called before the rows are read: a stale dimension record in the file shifts or truncates the '
               'streamed rows', fact='reset before reading', loc=loc_of(fi.module.path, sheet_loop))
     cell_loops = [n for n in ast.walk(row_loop) if isinstance(n, ast.For) and n is not row_loop and
